@@ -22,7 +22,7 @@ from ..leanclient import hx
 from . import rectoy as T
 from . import reclive as R
 
-TRANSLATORS = []
+TRANSLATORS = ["record"]
 
 MANIFEST = {
     "text": "Proof: Lean model Tls.Rec of RecordLayer.sendRecord/recvRecord (five protect paths, cryptographic primitives as "
@@ -272,7 +272,7 @@ def parse_records(data):
     return res
 
 
-def run_live(ctx, cfg, script=None, record=True):
+def run_live(ctx, cfg, script=None, record=True, reduced=False):
     """one connection: handshake, then writes at the enumerated boundary lengths in alternating
     directions with the peer reading through random (max, min) calls, then an interleaved phase.
     Returns the executed script (for replays)."""
@@ -577,16 +577,18 @@ def run_live(ctx, cfg, script=None, record=True):
     if script is None:
         for who in ("client", "server"):
             budget = min(budget_for(ctx, cfg, who, pads[who]), limits[who] * ctx.pick(150, 500))
+            if reduced:
+                budget = min(budget, 2500)
             lens = boundary_lengths(cfg, limits[who], budget)
             cap = max(1, min(budget // 4, 3 * limits[who] + 10))
-            extra = [rng.randrange(0, cap + 1) for _ in range(3 if not ctx.thorough() else 6)]
+            extra = [rng.randrange(0, cap + 1) for _ in range(0 if reduced else (3 if not ctx.thorough() else 6))]
             for n in lens + extra:
                 if failed[0]:
                     break
                 do_write(who, rb(rng, n))
                 drain(peer[who])
         # interleaved phase: several writes in both directions before any read, reads in random order
-        for _ in range(3 if not ctx.thorough() else 5):
+        for _ in range(1 if reduced else (3 if not ctx.thorough() else 5)):
             if failed[0]:
                 break
             for _ in range(rng.randrange(2, 6)):
@@ -739,25 +741,44 @@ def ucfg(d):
 
 
 def live_streams(ctx):
+    """every configuration runs its directed histories (buffer re-use, interleaving, recordSize changes while a
+    write is suspended, TLS 1.3 KeyUpdate rounds, resumed connections) whatever the machine load; past the time
+    budget only the bulk is cut: the boundary-length sweep shrinks (quick) / the remaining configurations of the
+    shuffled suite x limit matrix are dropped (thorough).  What was cut is recorded in the evidence."""
     budget = ctx.pick(150, 1000)
     cfgs = list(live_configs(ctx))
-    # multi-step histories (resumed connections) first: nothing of a whole family is lost to the time budget
-    cfgs.sort(key=lambda c: 0 if c.get("resume") else 1)
+    directed = [c for c in cfgs if c.get("resume") or c["ver"] >= (3, 4)]
+    rest = [c for c in cfgs if not (c.get("resume") or c["ver"] >= (3, 4))]
     if ctx.thorough():
-        ctx.rng.shuffle(cfgs)       # whatever does not fit into the budget is spread over all dimensions
-    for cfg in cfgs:
-        if ctx.elapsed() > budget:
+        ctx.rng.shuffle(rest)       # whatever does not fit into the budget is spread over all dimensions
+    cut = ctx.extra.setdefault("streams_cut_by_time", [])
+    for n, cfg in enumerate(directed + rest):
+        late = _since_run(ctx) > budget
+        if late and ctx.thorough() and n >= len(directed):
             ctx.count("live:skipped-out-of-time")
+            if "live: remaining suite x limit configurations dropped (thorough)" not in cut:
+                cut.append("live: remaining suite x limit configurations dropped (thorough)")
             continue
+        if late:
+            ctx.count("live:reduced-by-time")
+            if "live: boundary-length sweep reduced" not in cut:
+                cut.append("live: boundary-length sweep reduced")
         try:
-            run_live(ctx, cfg)
+            run_live(ctx, cfg, reduced=late)
         except Exception as e:  # noqa: B902 - an exception escaping an honest exchange is a finding of its own
             import traceback
             ctx.violation("c01:exception", "exception during an honest exchange: %s: %s" % (type(e).__name__, e),
                           dict(stage="live", cfg=jcfg(cfg), traceback=traceback.format_exc()[-1500:]))
 
 
+def _since_run(ctx):
+    import time as _time
+    return _time.time() - getattr(ctx, "_t_run", ctx.t0)
+
+
 def run(ctx):
+    import time as _time
+    ctx._t_run = _time.time()      # budgets count from here: the Lean build before it does not eat them
     ctx.rule = ("toy stream: path x version x content type x boundary lengths x padding spec x sequence number; live stream: "
                 "version x cipher x EtM x record_size_limit pair x recordSize x padding_cb, per connection every boundary "
                 "length around 0/1/block/limit/k*2^14 plus seeded random lengths in both directions, reads with random "
